@@ -38,25 +38,31 @@ from vt.run import quiet
 
 ID = "C23"
 SHARDS = {"quick": 16, "thorough": 16}
-RULE = ("seeded generator of llvm-dialect modules (1-3 llvm.func, 1-6 blocks each): integer binops "
-        "with nsw/nuw/exact/disjoint, icmp (10 predicates), fcmp (16), fadd/fsub/fmul/fdiv/frem with "
-        "nnan/ninf, trunc(nsw/nuw)/zext(nneg)/sext/sitofp/fpext/bitcast, select, constants, "
-        "fneg/fabs/sqrt/floor/ceil/copysign, alloca/getelementptr/load/store on 1-4 element "
-        "buffers, calls to later functions, br/cond_br with block arguments (both edges to one "
-        "block with equal or different arguments), counted loops, unreachable blocks, permuted block "
-        "layout; built through the op constructors, 30% additionally printed and re-parsed. "
-        "Oracle: convert_module output must parse and verify in LLVM 20 (llvmlite), and the "
-        "MCJIT-compiled code (plain or after the O2 pipeline), called through ctypes in a child "
-        "process, must return the value of an independent reference evaluator on every generated "
-        "input on which the reference is defined (no UB, no poison reaching a branch/return, no "
-        "NaN-payload dependence). NotImplementedError/LLVMTranslationException = discarded. "
+RULE = ("(1) enumeration: every integer binop x i1..i64 x flag set, icmp (10 predicates) x type, fcmp "
+        "(16) x f32/f64, fadd/fsub/fmul/fdiv/frem x nnan/ninf, every legal trunc/zext/sext/sitofp/"
+        "fpext/bitcast pair x flags, select, fneg/fabs/sqrt/floor/ceil/copysign as one-op functions "
+        "on 16 boundary inputs, plain and through the O2 pipeline, plus 15 two-op idioms that LLVM "
+        "folds when the first op carries nsw/nuw/exact/disjoint/nneg/nnan (an added flag changes a "
+        "defined result). (2) seeded generator of llvm-dialect modules (1-3 llvm.func, 1-6 blocks): "
+        "the same ops plus constants (signed/unsigned/i64-typed spelling), alloca/getelementptr/"
+        "load/store on 1-4 element buffers, calls to later functions (ccc or fastcc), br/cond_br with "
+        "block arguments (both edges to one block with equal or different arguments), counted loops, "
+        "unreachable blocks, permuted block layout; built with the op constructors, 30% additionally "
+        "printed and re-parsed. Oracle: convert_module output must parse and verify in LLVM 20 "
+        "(llvmlite), and the MCJIT-compiled code (plain or after O2), called through ctypes in a "
+        "child process, must return the value of an independent reference evaluator on every "
+        "generated input on which the reference is defined (no UB, no poison reaching a branch/"
+        "return, no NaN sign/payload dependence). NotImplementedError/LLVMTranslationException = "
+        "discarded; any other exception from convert_module on a verified module = translate_crash. "
         "Non-trivial: a function with >=2 blocks and block arguments, or a flagged op, or a cast.")
 ASSUMPTIONS = ["llvmlite 0.47 / LLVM 20 parser, verifier, O2 pipeline and x86-64 MCJIT are correct",
                "the reference evaluator in this file implements LLVM LangRef semantics of the "
                "generated sub-language (IEEE-754 binary32/64, round-to-nearest-even)",
                "an undocumented exception escaping convert_module (anything but "
                "NotImplementedError / LLVMTranslationException) on a verified module counts as a "
-               "failed translation (check=translate_crash)"]
+               "failed translation (check=translate_crash)",
+               "dropping a poison-generating flag is a refinement and is not reported; only "
+               "result-changing (added/wrong) flags are"]
 
 INT_W = {"i1": 1, "i8": 8, "i16": 16, "i32": 32, "i64": 64}
 FLOAT_T = ("f32", "f64")
@@ -737,11 +743,16 @@ def normalize(recipe) -> dict:
         if not isinstance(a, list) or len(a) > 6:
             raise Bad("args")
         sigs.append(([_ty(x) for x in a], _ty(f.get("ret"))))
+        if f.get("cc", "ccc") not in ("ccc", "fastcc"):
+            raise Bad("cc")
     rows = recipe.get("inputs") or []
     if not isinstance(rows, list) or len(rows) > 16:
         raise Bad("inputs")
     rows = [[_int(x) for x in r] if isinstance(r, list) else [_int(r)] for r in rows]
-    return {"funcs": [_norm_func(i, f, sigs) for i, f in enumerate(funcs)], "inputs": rows,
+    plans = [_norm_func(i, f, sigs) for i, f in enumerate(funcs)]
+    for pl, f in zip(plans, funcs):
+        pl["cc"] = f.get("cc", "ccc")
+    return {"funcs": plans, "inputs": rows,
             "opt": 1 if recipe.get("opt") else 0, "text": bool(recipe.get("text"))}
 
 
@@ -752,7 +763,8 @@ def input_bits(fn: dict, row: list) -> list:
 def features(plan: dict) -> dict:
     ft = {"phi": False, "flag": False, "cast": False, "loop": False, "same_target": False,
           "same_target_diff": False, "permuted": False, "mem": False, "call": False,
-          "unreachable_block": False, "multi_block": False, "float": False, "intrinsic": False}
+          "unreachable_block": False, "multi_block": False, "float": False, "intrinsic": False,
+          "call_fastcc": False}
     kinds = set()
     for f in plan["funcs"]:
         if len(f["blocks"]) > 1:
@@ -765,7 +777,7 @@ def features(plan: dict) -> dict:
             ft["unreachable_block"] = True
         for b in f["blocks"]:
             for o in b["ops"]:
-                kinds.add(o["k"] + ":" + str(o.get("op", o.get("p", ""))))
+                kinds.add(o["k"] + ":" + str(o.get("op") or (o["p"] if o["k"] in ("icmp", "fcmp") else "")))
                 if o.get("flags") or o.get("fm"):
                     ft["flag"] = True
                 if o["k"] == "cast":
@@ -774,6 +786,8 @@ def features(plan: dict) -> dict:
                     ft["mem"] = True
                 if o["k"] == "call":
                     ft["call"] = True
+                    if plan["funcs"][o["fn"]]["cc"] != "ccc":
+                        ft["call_fastcc"] = True
                 if o["k"] in ("fbin", "fcmp", "fun1", "fun2"):
                     ft["float"] = True
                 if o["k"] in ("fun1", "fun2") and o["op"] != "fneg":
@@ -952,7 +966,8 @@ def to_xdsl(plan: dict):
                     op = L.StoreOp(val[o["v"]], val[o["p"]])
                 elif k == "call":
                     op = L.CallOp(plan["funcs"][o["fn"]]["name"], *[val[a] for a in o["args"]],
-                                  return_type=TY[o["ty"]])
+                                  return_type=TY[o["ty"]],
+                                  calling_convention=L.CallingConventionAttr(plan["funcs"][o["fn"]]["cc"]))
                 else:
                     raise AssertionError(k)
                 blk.add_op(op)
@@ -968,7 +983,8 @@ def to_xdsl(plan: dict):
                                       blks[t["to"][1]], [val[a] for a in t["args"][1]]))
         region = Region([blks[i] for i in f["layout"]])
         funcs.append(L.FuncOp(f["name"], L.LLVMFunctionType([TY[a] for a in f["args"]], TY[f["ret"]]),
-                              linkage=L.LinkageAttr("external"), body=region))
+                              linkage=L.LinkageAttr("external"),
+                              cconv=L.CallingConventionAttr(f["cc"]), body=region))
     return X["ModuleOp"](funcs)
 
 
@@ -1174,8 +1190,8 @@ class Worker:
         self.lat_max = 0.0
 
     def timeout(self) -> float:
-        """Adaptive per-request budget: 30x the slowest completed request, within [8 s, 90 s]."""
-        return min(90.0, max(8.0, 30.0 * self.lat_max))
+        """Adaptive per-request budget: 30x the slowest completed request, within [20 s, 120 s]."""
+        return min(120.0, max(20.0, 30.0 * self.lat_max))
 
     def start(self):
         self.errf = tempfile.TemporaryFile()
@@ -1346,6 +1362,9 @@ def _expected(plan: dict):
     per = []
     for fi, f in enumerate(plan["funcs"]):
         rows, seen = [], set()
+        if f["cc"] != "ccc":        # not callable through ctypes; exercised through its callers
+            per.append(rows)
+            continue
         for row in plan["inputs"]:
             bits = input_bits(f, row)
             if tuple(bits) in seen:
@@ -1438,7 +1457,7 @@ def _probe_plan(o: dict, in_tys: list, samples: list) -> dict:
     inst["res"] = n
     vt = {i: t for i, t in enumerate(in_tys)}
     vt[n] = o["ty"]
-    f = {"name": "f0", "args": list(in_tys), "ret": o["ty"], "layout": [0], "vtypes": vt,
+    f = {"name": "f0", "args": list(in_tys), "ret": o["ty"], "layout": [0], "vtypes": vt, "cc": "ccc",
          "reach": [True], "blocks": [{"params": list(range(n)), "ops": [inst],
                                       "term": {"k": "ret", "v": n}}]}
     return {"funcs": [f], "inputs": [], "opt": 0, "text": False, "_samples": samples}
@@ -1529,6 +1548,11 @@ def _localize(plan: dict, fi: int, bits: list, ir: str = "") -> dict:
     audit = _flag_audit(plan, ir) if ir else None
     if audit:
         return audit
+    for g in plan["funcs"]:
+        if ir and g["cc"] != "ccc" and not re.search(
+                r'^define (?:\w+ )*' + g["cc"] + r' [^@]*@"?' + g["name"] + r'"?\(', ir, re.M) \
+                and re.search(r"call " + g["cc"] + r' [^@]*@"?' + g["name"] + r'"?\(', ir):
+            return {"op": "llvm.func", "cconv": g["cc"], "flag": "cconv_on_call_but_not_on_define"}
     reachable = set()
     todo = [fi]
     while todo:
@@ -1600,7 +1624,14 @@ def oracle(h, recipe, label: str | None = None) -> None:
     if stats["steplimit"]:
         h.inconclusive("reference_step_limit", stats["steplimit"])
     res = _native(plan, ir, per, plan["opt"], retry=not getattr(h, "_shrinking", False))
+    if res["status"] == "timeout":
+        # wall-clock backstop only (machine load / a hang inside LLVM itself): never a verdict.
+        # Native calls that do not terminate are caught by the CPU-time limit in the child.
+        h.inconclusive("worker_wallclock_timeout")
+        return
     v = _compare(plan, per, res)
+    if v is not None and v[0] != "reject":
+        _WORKER.stop()       # never reuse a child that ran miscompiled code
     if v is None:
         h.count("native_calls", sum(len(r) for r in per))
         if any(per):
@@ -1787,15 +1818,15 @@ def gen_func(rng: random.Random) -> dict:
         k = _wchoice(rng, (("br", 33), ("cbr", 47), ("ret", 5), ("latch", 15 if b else 0)))
         eargs = [[rng.randrange(0, 12) for _ in range(3)] for _ in range(2)]
         if k == "br":
-            t = {"k": "br", "to": rng.choice((0, 0, 0, 1, 2)), "args": eargs[:1]}
+            t = {"k": "br", "to": rng.choice((0, 0, 0, 0, 0, 0, 0, 0, 1, 2)), "args": eargs[:1]}
         elif k == "cbr":
             if rng.random() < .12:
                 x = rng.randrange(0, 3)
                 t = {"k": "cbr", "c": rng.randrange(0, 12), "to": [x, x], "args": eargs,
                      "diff": int(rng.random() < .4)}
             else:
-                t = {"k": "cbr", "c": rng.randrange(0, 12), "to": [rng.choice((0, 0, 0, 1)),
-                                                                  rng.choice((0, 1, 1, 2))], "args": eargs}
+                t = {"k": "cbr", "c": rng.randrange(0, 12), "to": [rng.choice((0, 0, 0, 0, 0, 0, 1)),
+                                                                  rng.choice((0, 1, 1, 1, 2))], "args": eargs}
         elif k == "latch":
             t = {"k": "latch", "head": rng.randrange(0, 4), "to": rng.randrange(0, 3),
                  "trip": rng.randrange(0, 4), "args": eargs, "swap": int(rng.random() < .4)}
@@ -1817,7 +1848,8 @@ def gen_recipe(seed: int) -> dict:
     rng = random.Random(seed)
     nf = _wchoice(rng, ((1, 50), (2, 33), (3, 17)))
     return {"kind": "prog", "opt": int(rng.random() < .5), "text": int(rng.random() < .3),
-            "funcs": [gen_func(rng) for _ in range(nf)],
+            "funcs": [dict(gen_func(rng), cc="fastcc" if i and rng.random() < .15 else "ccc")
+                      for i in range(nf)],
             "inputs": [[gen_raw(rng) for _ in range(4)] for _ in range(6)]}
 
 
@@ -1884,7 +1916,7 @@ def unit_recipes() -> list:
 
 
 def checks(h) -> None:
-    n = h.scale(600, 15000)
+    n = h.scale(600, 10000)
     strat = st.integers(min_value=0, max_value=(1 << 62)).map(gen_recipe)
     try:
         for i, r in enumerate(unit_recipes()):
